@@ -140,6 +140,15 @@ CLAIMED = {
                  "updated after the guard on every path, one save per record; StandardLogger counts then tests epoch % interval.",
         "note": "NOT decided: arithmetic equivalence of the wrap-or-gap predicate with `a multiple of the interval was passed since the previous record` (hand argument in DESIGN.md), Orbax / filesystem behaviour.",
     },
+    "C17": {
+        "technique": "static analysis: symbolic shape inference through interpreted vmap function values (class attributes built in __init__), call-site rank checks against numpydoc, normal-form identities for aggregate / bounding / NLL / plan evaluation, structural bootstrap pipeline rules, cross-oracle normal form against the installed gymnasium Pendulum source",
+        "level": "Decides for the documented ranks (vector and batch) and all parameter values (structure, shapes, formula identity): every prediction method returns mean and variance of identical (.., n_outputs) shape, "
+                 "base_distribution gets loc/scale of equal shape and ts_inf queries it with a batch of one; aggregate is the law of total variance over the member axis; soft bounding, NLL and ensemble loss forms; bootstrap matrix "
+                 "(n_ensemble, n) with replacement, per-epoch permutation along axis 1, guarded truncation to complete batches, member axis never merged; plan evaluation sum-over-horizon / mean-over-particles; Pendulum "
+                 "reward coefficients, angle normalisation and torque clip equal the environment's (parsed from gymnasium).",
+        "note": "Trusted: vmap / split / merge semantics, permutation and choice, the installed gymnasium source. NOT decided: numeric equality of member slices with the joint forward pass, finiteness of log-variances "
+                "(follows from the bounding form under real arithmetic), float values.",
+    },
 }
 
 NOT_APPLICABLE = {}
